@@ -8,7 +8,7 @@ import (
 	. "verifharness/common"
 )
 
-var pipeNames = []string{"pa", "pb", "pc", "pd"}
+var pipeNames = []string{"pa", "pb", "pc", "pd", fwdPipe} // the first four never match a partition
 
 func pipeIndex(n string) int {
 	for i, p := range pipeNames {
@@ -21,9 +21,45 @@ func pipeIndex(n string) int {
 
 // ---------------------------------------------------------------- generator
 
+// genFwd: a pipe from partition 0 to its destination partition (the last one), graceful restarts only: rounds of "flush,
+// write to the source, wait for the pipe to catch up with what is flushed"; the destination must hold every flushed
+// source event exactly once, also after the pipe resumed from its persisted progress
+func genFwd(r *Rng) Scenario {
+	sc := Scenario{Kind: "fwd", NParts: 2}
+	nsess := r.PickInt(2, 2, 3)
+	var next int64
+	var all []int64
+	for s := 0; s < nsess; s++ {
+		ss := Session{End: "stop"}
+		if s == 0 {
+			ss.Steps = append(ss.Steps, Step{Op: "fwdpipe"})
+		}
+		for k, rounds := 0, r.Range(1, 3); k < rounds; k++ {
+			var ts []int64
+			for i, n := 0, r.Range(1, 4); i < n; i++ {
+				next += int64(r.Range(1, 3))
+				ts = append(ts, next*10)
+			}
+			all = append(all, ts...)
+			ss.Steps = append(ss.Steps, Step{Op: "round", Ts: ts})
+		}
+		sc.Sessions = append(sc.Sessions, ss)
+	}
+	a, b := all[r.Intn(len(all))], all[r.Intn(len(all))]
+	if a > b {
+		a, b = b, a
+	}
+	sc.Range = [2]int64{a - 5, b + 5}
+	return sc
+}
+
 func genScenario(r *Rng) Scenario {
+	if r.Chance(1, 12) {
+		return genFwd(r)
+	}
 	sc := Scenario{Kind: "gen", NParts: r.PickInt(1, 2, 2, 3)}
-	next := make([]int64, sc.NParts) // next timestamp step per partition
+	written := make([]bool, sc.NParts) // the partition exists (as far as the generator can tell)
+	next := make([]int64, sc.NParts)   // next timestamp step per partition
 	exists := map[string]bool{}
 	nsess := r.PickInt(1, 1, 2, 2, 3)
 	var all []int64
@@ -35,12 +71,48 @@ func genScenario(r *Rng) Scenario {
 		case x < 45:
 			ss.End, ss.EndK = "crash-stop", r.PickInt(0, 1, 250, 500, 900, 999)
 		}
+		if s > 0 && r.Chance(1, 4) {
+			// a blind start: the first thing the server is asked is a write. Everything of the session before has to be
+			// flushed (a crash must not lose anything: what is there is checked later only), and half of the time that
+			// session ended gracefully and lost its time-index snapshot
+			ss.Blind = true
+			prev := &sc.Sessions[s-1]
+			if prev.End != "stop" {
+				prev.Steps = append(prev.Steps, Step{Op: "sync"})
+			} else if len(prev.Surgery) == 0 && r.Chance(2, 3) {
+				prev.Surgery = []Surgery{{Kind: r.PickStr("cindex-drop", "cindex-torn"), K: r.PickInt(0, 250, 500, 900)}}
+			}
+			p := r.Intn(sc.NParts)
+			for q := 0; q < sc.NParts; q++ {
+				if written[q] {
+					p = q
+				}
+			}
+			next[p] += int64(r.Range(1, 3))
+			ts := []int64{next[p]*10 + int64(p)}
+			all = append(all, ts...)
+			written[p] = true
+			ss.Steps = append(ss.Steps, Step{Op: "write", Part: p, Ts: ts}, Step{Op: "sync"})
+		}
 		nsteps := r.Range(1, 6)
 		for k := 0; k < nsteps; k++ {
 			x := r.Intn(100)
 			switch {
+			case x < 6:
+				var have []int
+				for q := 0; q < sc.NParts; q++ {
+					if written[q] {
+						have = append(have, q)
+					}
+				}
+				if len(have) > 0 {
+					p := have[r.Intn(len(have))]
+					written[p] = false
+					ss.Steps = append(ss.Steps, Step{Op: "drop", Part: p})
+				}
 			case x < 50:
 				p := r.Intn(sc.NParts)
+				written[p] = true
 				n := r.Range(1, 3)
 				var ts []int64
 				for i := 0; i < n; i++ {
@@ -52,14 +124,14 @@ func genScenario(r *Rng) Scenario {
 			case x < 75:
 				ss.Steps = append(ss.Steps, Step{Op: "sync"})
 			case x < 90:
-				n := r.PickStr(pipeNames...)
+				n := r.PickStr(pipeNames[:4]...)
 				if !exists[n] {
 					exists[n] = true
 					ss.Steps = append(ss.Steps, Step{Op: "pipe", Name: n})
 				}
 			default:
 				var have []string
-				for _, n := range pipeNames {
+				for _, n := range pipeNames[:4] {
 					if exists[n] {
 						have = append(have, n)
 					}
@@ -125,6 +197,16 @@ func corpus() []Scenario {
 		// the time index gets ahead of the journal when a crash loses acknowledged records (recorded finding): 70 and 80 are lost,
 		// 110 and 140 take their positions, RANGE [84:145] starts too late
 		{Kind: "corpus", NParts: 1, Range: [2]int64{84, 145}, Sessions: []Session{{Steps: []Step{w(0, 40), sy}, End: "stop"}, {Steps: []Step{w(0, 70, 80)}, End: "kill"}, {Steps: []Step{w(0, 110, 140), sy}, End: "stop"}}},
+		// C07_drop_survives_restart: a partition truncated away completely (one of its events still buffered) stays away across
+		// a graceful restart and across a crash; written again it is a new partition
+		{Kind: "corpus", NParts: 2, Range: [2]int64{15, 25}, Sessions: []Session{{Steps: []Step{w(0, 10, 20), w(1, 11, 21), sy, w(1, 31), {Op: "drop", Part: 1}}, End: "stop"}, {Steps: []Step{w(1, 41), sy}, End: "stop"}}},
+		{Kind: "corpus", NParts: 2, Range: [2]int64{15, 25}, Sessions: []Session{{Steps: []Step{w(0, 10, 20), w(1, 11, 21), sy, {Op: "drop", Part: 1}}, End: "kill"}, {Steps: []Step{{Op: "drop", Part: 0}}, End: "stop"}}},
+		// C07_pipe_catches_up_once: a pipe forwards, graceful restart, the source is written again: nothing is forwarded twice
+		{Kind: "fwd", NParts: 2, Range: [2]int64{15, 25}, Sessions: []Session{{Steps: []Step{{Op: "fwdpipe"}, {Op: "round", Ts: []int64{10, 20, 30}}, {Op: "round", Ts: []int64{40}}}, End: "stop"}, {Steps: []Step{{Op: "round", Ts: []int64{50, 60}}, {Op: "round", Ts: []int64{70}}}, End: "stop"}, {Steps: []Step{{Op: "round", Ts: []int64{80}}}, End: "stop"}}},
+		// the snapshot of the time index is lost and the first thing the restarted server is asked is a write to the chunk it
+		// does not know: the index is found inconsistent and rebuilt, RANGE shows the earlier events
+		{Kind: "corpus", NParts: 1, Range: [2]int64{15, 25}, Sessions: []Session{{Steps: []Step{w(0, 10, 20, 30), sy}, End: "stop", Surgery: []Surgery{{Kind: "cindex-drop"}}}, {Blind: true, Steps: []Step{w(0, 40), sy}, End: "stop"}}},
+		{Kind: "corpus", NParts: 1, Range: [2]int64{15, 25}, Sessions: []Session{{Steps: []Step{w(0, 10, 20, 30), sy}, End: "stop", Surgery: []Surgery{{Kind: "cindex-torn", K: 500}}}, {Blind: true, Steps: []Step{w(0, 40)}, End: "stop"}}},
 		// missing / torn snapshot: rebuilt from the chunk
 		{Kind: "corpus", NParts: 1, Range: [2]int64{15, 25}, Sessions: []Session{{Steps: []Step{w(0, 10, 20, 30), sy}, End: "stop", Surgery: []Surgery{{Kind: "cindex-drop"}}}}},
 		{Kind: "corpus", NParts: 1, Range: [2]int64{15, 25}, Sessions: []Session{{Steps: []Step{w(0, 10, 20, 30), sy}, End: "stop", Surgery: []Surgery{{Kind: "cindex-torn", K: 500}}}}},
@@ -143,6 +225,10 @@ func gStep(s Step) string {
 		return "SSync"
 	case "pipe":
 		return GApp("SPipe", GNat(pipeIndex(s.Name)))
+	case "drop":
+		return GApp("SDrop", GNat(s.Part))
+	case "fwdpipe":
+		return GApp("SPipe", GNat(pipeIndex(fwdPipe)))
 	default:
 		return GApp("SDelPipe", GNat(pipeIndex(s.Name)))
 	}
@@ -163,10 +249,17 @@ func gSurgery(s Surgery) string {
 	}
 }
 
-func gSession(s Session) string {
-	st := make([]string, len(s.Steps))
-	for i, x := range s.Steps {
-		st[i] = gStep(x)
+func gSession(s Session, np int) string {
+	var st []string
+	for _, x := range s.Steps {
+		if x.Op == "round" {
+			// flush; the write of the round is acknowledged and stays buffered; the pipe (partition 0 -> the last partition)
+			// runs and catches up with what is flushed. (The server flushes the destination as well; the model leaves what
+			// was forwarded in the destination's buffer until the next flush - the next round or the graceful stop.)
+			st = append(st, "SSync", GApp("SWrite", GNat(0), GListZ(x.Ts)), GApp("SDrain", GNat(0), GNat(np-1)))
+			continue
+		}
+		st = append(st, gStep(x))
 	}
 	var sg []string
 	if s.End == "crash-stop" {
@@ -181,6 +274,9 @@ func gSession(s Session) string {
 func gObs(o Obs) string {
 	if !o.Started {
 		return "ORefused"
+	}
+	if o.Blind {
+		return "OBlind"
 	}
 	ps := make([]string, len(o.Parts))
 	for i, p := range o.Parts {
@@ -204,7 +300,7 @@ func gObs(o Obs) string {
 
 // ---------------------------------------------------------------- main
 
-const rule = "scenarios of 1-3 sessions on one server directory (child process): writes to 1-3 partitions (timestamps increasing per partition), explicit flushes (standing for WriteFlushMs passing), pipe create/delete; every session ends by a graceful stop, by SIGKILL, or by a crash injected into the shutdown sequence (the process dies inside the write of its first saver, the pipes save, at 0..999 per mille); after a graceful stop optionally: a crash injected into the tag-index save at the end of Init (a start that dies inside the saver's write at 0..999 per mille), a record removed from tindex.dat, cindex.dat dropped / torn / replaced by the one of the previous shutdown; every start is observed (refused, or partitions + events + pipes + a RANGE probe). Non-trivial: at least one session wrote events that were flushed, and the scenario has a crash, a surgery or an unflushed acknowledged write at a graceful stop."
+const rule = "scenarios of 1-3 sessions on one server directory (child process): writes to 1-3 partitions (timestamps increasing per partition), explicit flushes (standing for WriteFlushMs passing), pipe create/delete; every session ends by a graceful stop, by SIGKILL, or by a crash injected into the shutdown sequence (the process dies inside the write of its first saver, the pipes save, at 0..999 per mille); after a graceful stop optionally: a crash injected into the tag-index save at the end of Init (a start that dies inside the saver's write at 0..999 per mille), a record removed from tindex.dat, cindex.dat dropped / torn / replaced by the one of the previous shutdown; every start is observed (refused, or partitions + events + pipes + a RANGE probe) - except blind starts (a quarter of the later sessions: the first request is a write, usually after the time-index snapshot was lost); 6 % of the steps truncate a partition away completely; 1 scenario in 12 has a forwarding pipe from partition 0 to its destination partition instead (graceful stops only, rounds of flush / write / wait until the pipe has caught up); at the end of every session the RANGE probe is compared with the plain read. Non-trivial: at least one session wrote events that were flushed, and the scenario has a crash, a surgery or an unflushed acknowledged write at a graceful stop."
 
 func run(c *Ctx) error {
 	var scs []Scenario
@@ -246,7 +342,7 @@ func mkCase(sc *Scenario, stream string) (*Case, error) {
 	}
 	ss := make([]string, len(sc.Sessions))
 	for i, s := range sc.Sessions {
-		ss[i] = gSession(s)
+		ss[i] = gSession(s, sc.NParts)
 	}
 	os := make([]string, len(tr.obs))
 	for i, o := range tr.obs {
@@ -259,10 +355,23 @@ func mkCase(sc *Scenario, stream string) (*Case, error) {
 		for _, g := range s.Surgery {
 			tags = append(tags, "surgery:"+g.Kind)
 		}
+		if s.Blind {
+			tags = append(tags, "blind-start")
+		}
+		for _, st := range s.Steps {
+			if st.Op == "drop" || st.Op == "round" {
+				tags = append(tags, "step:"+st.Op)
+			}
+		}
 	}
+	tags = append(tags, "kind:"+sc.Kind)
 	tags = append(tags, fmt.Sprintf("sessions:%d", len(sc.Sessions)))
 	for _, how := range tr.inject {
-		tags = append(tags, "injected-crash-at-"+how)
+		if strings.HasPrefix(how, "round:") {
+			tags = append(tags, how)
+		} else {
+			tags = append(tags, "injected-crash-at-"+how)
+		}
 	}
 	if len(tr.obs) > 0 && !tr.obs[len(tr.obs)-1].Started {
 		tags = append(tags, "refused-to-start")
